@@ -145,7 +145,9 @@ class VoteMagnitudeChecker:
     def to_dict(self) -> Dict[str, Any]:
         return {
             'class': votelib.persist.scoped_class_name(self),
-            'bounds': [self.min_value, self.max_value],
+            'bounds': votelib.persist.serialize_value(
+                [self.min_value, self.max_value]
+            ),
             'value_name': self.value_name
         }
 
